@@ -1053,9 +1053,9 @@ func TestVerifC26(t *testing.T) {
 		fams = []c26Family{
 			{name: "n<=3, all 7 sizes x {A,B,C,X6}, all 24 configs", ns: []int{1, 2, 3}, sizes: allSizes, dests: []int8{0, 1, 2, 3}, bound: 3, cfgs: cfgAll},
 			{name: "n<=2 unbounded answers, mapped destination, errno with count 0", ns: []int{1, 2}, sizes: allSizes, dests: []int8{0, 3, 4}, bound: -1, cfgs: append(append([]c26Cfg{}, cfgV4...), cfgErr0...)},
-			{name: "n=4, sizes {0,99,100,101} x {A,B,X6}, v4 socket", ns: []int{4}, sizes: small, dests: []int8{0, 1, 3}, bound: 2, cfgs: cfgV4},
-			{name: "n=4, sizes {100,32500,32501,65001} x {A,X6}, v4 socket", ns: []int{4}, sizes: []int8{2, 4, 5, 6}, dests: []int8{0, 3}, bound: 2, cfgs: cfgV4},
-			{name: "n=5..6, sizes {99,100} x {A,X6}, v4 socket", ns: []int{5, 6}, sizes: []int8{1, 2}, dests: []int8{0, 3}, bound: 2, cfgs: cfgCore},
+			{name: "n=4, sizes {0,99,100,101} x {A,B,X6}, v4 socket", ns: []int{4}, sizes: small, dests: []int8{0, 1, 3}, bound: 3, cfgs: cfgV4},
+			{name: "n=4, sizes {100,32500,32501,65001} x {A,X6}, v4 socket", ns: []int{4}, sizes: []int8{2, 4, 5, 6}, dests: []int8{0, 3}, bound: 3, cfgs: cfgV4},
+			{name: "n=5..6, sizes {99,100} x {A,X6}, v4 socket", ns: []int{5, 6}, sizes: []int8{1, 2}, dests: []int8{0, 3}, bound: 3, cfgs: cfgCore},
 			{name: "n=5, sizes {0,100} x {A,C}, v4 socket", ns: []int{5}, sizes: []int8{0, 2}, dests: []int8{0, 2}, bound: 3, cfgs: cfgCore},
 		}
 	} else {
@@ -1188,15 +1188,25 @@ func TestVerifC26(t *testing.T) {
 	minBound := 1 << 30
 	for i, f := range fams {
 		b := any(f.bound)
+		done := famDone[i].Load() == famBatches[i] && !capped.Load()
 		if f.bound < 0 {
 			b = "unbounded"
+			if !done {
+				minBound = 0
+			}
+		} else if !done {
+			minBound = 0
 		} else if f.bound < minBound {
 			minBound = f.bound
 		}
 		famInfo[f.name] = map[string]any{"batches": famBatches[i], "batches_done": famDone[i].Load(), "configs": len(f.cfgs), "deviation_bound": b, "answer_sequences": famRuns[i]}
 	}
 	st := &total
-	if c.Violations() == 0 {
+	if c.Violations() == 0 && capped.Load() {
+		// a run cut short by the time budget may not have reached every class; the basic guards still apply
+		c.Require(st.withFault > 0 && st.nontrivial >= 2 && st.gsoEntries > 0, "capped run reached no faults / no offloaded entries")
+	}
+	if c.Violations() == 0 && !capped.Load() {
 		c.Require(st.withFault > 0 && st.nontrivial >= 2 && st.planChanged > 0 && st.deliveryChanged > 0, "faults never changed the send plan: %+v", st)
 		c.Require(st.gsoEntries > 0 && st.gso3 > 0 && st.gsoShortLast > 0 && st.gsoAtSegLimit > 0 && st.gsoAtByteLimit > 0 && st.gsoAccepted > 0,
 			"offloaded entries with several packets did not occur in all shapes: entries=%d >=3pkts=%d shortLast=%d atSegLimit=%d atByteLimit=%d", st.gsoEntries, st.gso3, st.gsoShortLast, st.gsoAtSegLimit, st.gsoAtByteLimit)
